@@ -64,3 +64,33 @@ Proof.
   destruct (read_compiled c fuel true fs s pos) as [[v q]|], (read_ty c fuel (TStruct nm fs true) s pos []) as [[v' q']|]; cbn in R2 |- *; try contradiction; auto.
   injection R2 as -> ->. reflexivity.
 Qed.
+
+(* ---------- aligned structures with dynamically sized members (Proofs/CompilerAligned.v) ---------- *)
+From VF Require Import Proofs.CompilerAligned.
+Definition layout_fits (c : cfg) (fs : list field) : Prop :=
+  forall lay, layout_struct c true fs = Ok lay -> agaps c 9223372036854775807 0 (set_offsets fs (l_offs lay)).
+(* C08: a value the generated reader of an aligned structure with dynamic members returns from a stream is the value it returns from every extension *)
+Theorem compiled_aligned_dynamic_extension_stable c fuel nm fs p :
+  Forall (adcls c fuel) fs -> NoDup (map f_name fs) -> layout_fits c fs -> compile_plan c true fs = Ok p -> simple (TStruct nm fs true) = true ->
+  forall s1 s2 pos r, 0 <= pos -> read_compiled c fuel true fs s1 pos = Ok r -> read_compiled c fuel true fs (s1 ++ s2) pos = Ok r.
+Proof.
+  intros Hcl Hnd Hb Hp Hsi s1 s2 pos r H0 H.
+  pose proof (compiled_aligned_dynamic_is_interpreted c fuel nm fs p Hcl Hnd Hb Hp s1 pos [] H0) as R1. rewrite H in R1.
+  destruct (read_ty c fuel (TStruct nm fs true) s1 pos []) as [r1|] eqn:E1; cbn in R1; [|contradiction]. subst r1.
+  pose proof (read_ty_ext c fuel _ Hsi s1 s2 pos [] r E1) as E2.
+  pose proof (compiled_aligned_dynamic_is_interpreted c fuel nm fs p Hcl Hnd Hb Hp (s1 ++ s2) pos [] H0) as R2. rewrite E2 in R2.
+  destruct (read_compiled c fuel true fs (s1 ++ s2) pos) as [r2|]; cbn in R2; [now subst|contradiction].
+Qed.
+(* C09: ... and does not depend on what precedes the position it starts at (prefixes that respect the alignments) *)
+Theorem compiled_aligned_dynamic_position_independent pre c fuel nm fs p :
+  Forall (adcls c fuel) fs -> NoDup (map f_name fs) -> layout_fits c fs -> compile_plan c true fs = Ok p -> ShiftProps.shift_ok pre c (TStruct nm fs true) = true ->
+  forall s pos, 0 <= pos -> req (read_compiled c fuel true fs (pre ++ s) (zlen pre + pos)) (ShiftProps.shift (zlen pre) (read_compiled c fuel true fs s pos)).
+Proof.
+  intros Hcl Hnd Hb Hp Hsh s pos H0.
+  pose proof (compiled_aligned_dynamic_is_interpreted c fuel nm fs p Hcl Hnd Hb Hp (pre ++ s) (zlen pre + pos) [] ltac:(pose proof (zlen_nonneg pre); lia)) as R1.
+  pose proof (compiled_aligned_dynamic_is_interpreted c fuel nm fs p Hcl Hnd Hb Hp s pos [] H0) as R2.
+  rewrite (proj1 (ShiftProps.read_ty_shift pre c fuel _ Hsh s pos [] H0)) in R1.
+  refine (req_trans _ _ _ R1 _). apply req_sym.
+  destruct (read_compiled c fuel true fs s pos) as [[v q]|], (read_ty c fuel (TStruct nm fs true) s pos []) as [[v' q']|]; cbn in R2 |- *; try contradiction; auto.
+  injection R2 as -> ->. reflexivity.
+Qed.
